@@ -81,7 +81,8 @@ def initial_cache(ctx, tables, initial):
         for ri in range(T):
             scale = max(abs(v) for v in Minv[ri])
             err = max(abs(Fraction(float(A[ri][j])) - Minv[ri][j]) for j in range(T))
-            if err > Fraction(1, 10 ** 6) * scale + 8 * U * kappa * scale:
+            # (the same bound as for rules computed at run time: 8 u kappa; a table typed in with 9 digits does not meet it)
+            if err > 8 * U * kappa * scale + Fraction(1, 10 ** 300):
                 step, off, _ = tables[parity]
                 ctx.violation('prepopulated-cache',
                               'FD_RULES is shipped with the entry %r whose row %d (the rule for the derivative of order %d of that parity class) is %r, but row %d of the inverse of the moment matrix is %r: every rule() call with this key returns the wrong rule' % (
